@@ -7,7 +7,8 @@
 //! `BTreeMap<id, key>`) on every answer of both stores and on the directory contents.
 //!
 //! Request lines: `new` | `<m|f> <op>` with op one of
-//!   entry i | get | insert k | remove | drop | sget i | tryins i k | sremove i | reopen | dir
+//!   entry i | get | insert k | insertfail k | remove | drop | sget i | tryins i k | tryinsfail i k
+//!   | sremove i | reopen | dir      (insertfail/tryinsfail: the key's Serialize fails half way)
 //!   | plant i hex      (f only; malformed stream: a file written behind the store's back)
 //! Answers: occ | vac | key k | none | ok | err | exists | misuse | panic | [i:hex,...]
 
@@ -29,14 +30,40 @@ use aranya_crypto::{
 use serde::{Deserialize, Serialize};
 use vh::{fnv, hex, unhex, Args, Recorder, Rng};
 
-#[derive(Copy, Clone, Debug, PartialEq, Eq, Serialize, Deserialize)]
-struct K(u64);
+/// The wrapped key: a `u64` newtype on the wire.  With `fail` set, `Serialize` pushes a 2-tuple
+/// head and the value through the writer and then reports an error — an insert that fails after
+/// the file was created and partly written (an unexportable key, a full disk, …).
+#[derive(Copy, Clone, Debug, PartialEq, Eq)]
+struct K {
+    v: u64,
+    fail: bool,
+}
+#[allow(non_snake_case)]
+fn K(v: u64) -> K {
+    K { v, fail: false }
+}
+impl Serialize for K {
+    fn serialize<S: serde::Serializer>(&self, s: S) -> Result<S::Ok, S::Error> {
+        if self.fail {
+            use serde::ser::{Error as _, SerializeTuple as _};
+            let mut t = s.serialize_tuple(2)?;
+            t.serialize_element(&self.v)?;
+            return Err(S::Error::custom("unable to export key"));
+        }
+        s.serialize_u64(self.v)
+    }
+}
+impl<'de> Deserialize<'de> for K {
+    fn deserialize<D: serde::Deserializer<'de>>(d: D) -> Result<Self, D::Error> {
+        Ok(K(u64::deserialize(d)?))
+    }
+}
 impl WrappedKey for K {}
 impl Identified for K {
     type Id = BaseId;
     fn id(&self) -> Result<BaseId, IdError> {
         let mut b = [0u8; 32];
-        b[..8].copy_from_slice(&self.0.to_le_bytes());
+        b[..8].copy_from_slice(&self.v.to_le_bytes());
         Ok(BaseId::from_bytes(b))
     }
 }
@@ -67,9 +94,17 @@ enum Op {
     Reopen,
     Dir,
     Plant(usize, Vec<u8>),
+    InsertFail(u64),
+    TryInsFail(usize, u64),
 }
 
 impl Op {
+    fn into_fail(self) -> Op {
+        match self {
+            Op::TryIns(i, k) => Op::TryInsFail(i, k),
+            o => o,
+        }
+    }
     fn show(&self) -> String {
         match self {
             Op::Entry(i) => format!("entry {i}"),
@@ -83,6 +118,8 @@ impl Op {
             Op::Reopen => "reopen".into(),
             Op::Dir => "dir".into(),
             Op::Plant(i, b) => format!("plant {i} {}", hex(b)),
+            Op::InsertFail(k) => format!("insertfail {k}"),
+            Op::TryInsFail(i, k) => format!("tryinsfail {i} {k}"),
         }
     }
     fn parse(s: &str) -> Option<Op> {
@@ -100,6 +137,8 @@ impl Op {
             ["reopen"] => Op::Reopen,
             ["dir"] => Op::Dir,
             ["plant", i, h] => Op::Plant(id(i)?, unhex(h)?),
+            ["insertfail", k] => Op::InsertFail(k.parse().ok()?),
+            ["tryinsfail", i, k] => Op::TryIns(id(i)?, k.parse().ok()?).into_fail(),
             _ => return None,
         })
     }
@@ -171,7 +210,7 @@ impl Sut for MemSut {
         // MemStore has no iteration API: observe through `get` over the id alphabet (+1 unused id)
         let mut v = vec![];
         for i in 0..=NIDS {
-            if let Ok(Some(K(k))) = self.0.get::<K>(id_of(i)) {
+            if let Ok(Some(K { v: k, .. })) = self.0.get::<K>(id_of(i)) {
                 v.push((i.to_string(), cbor_enc(k)));
             }
         }
@@ -267,6 +306,14 @@ impl Oracle {
                 self.cur = None;
                 "ok".into()
             }
+            // a failed insert leaves the id vacant and nothing behind
+            (Op::InsertFail(_), Some(i)) if !self.present(i) => {
+                self.cur = None;
+                "err".into()
+            }
+            (Op::TryInsFail(i, _), None) => {
+                if self.present(*i) { "exists" } else { "err" }.into()
+            }
             (Op::Remove, Some(i)) if self.present(i) => {
                 let r = Self::key_or_err(self.value(i));
                 self.forget(i);
@@ -315,7 +362,7 @@ impl Oracle {
 
 fn res_key<E: aranya_crypto::keystore::Error>(r: Result<K, E>) -> String {
     match r {
-        Ok(K(k)) => format!("key {k}"),
+        Ok(K { v: k, .. }) => format!("key {k}"),
         Err(e) => err_str(&e),
     }
 }
@@ -373,11 +420,11 @@ fn run_on<T: Sut>(sut: &mut T, ops: &[Op]) -> Out {
         idx += 1;
         match op {
             Op::Plant(..) if mem => continue, // not applicable to the memory store
-            Op::Get | Op::Insert(_) | Op::Remove | Op::Drop => emit!(op, "misuse".into()),
+            Op::Get | Op::Insert(_) | Op::InsertFail(_) | Op::Remove | Op::Drop => emit!(op, "misuse".into()),
             Op::SGet(i) => {
                 let r = guard!(sut.store().get::<K>(id_of(*i)));
                 emit!(op, match r {
-                    Ok(Some(K(k))) => format!("key {k}"),
+                    Ok(Some(K { v: k, .. })) => format!("key {k}"),
                     Ok(None) => "none".into(),
                     Err(e) => err_str(&e),
                 });
@@ -389,10 +436,17 @@ fn run_on<T: Sut>(sut: &mut T, ops: &[Op]) -> Out {
                     Err(e) => err_str(&e),
                 });
             }
+            Op::TryInsFail(i, k) => {
+                let r = guard!(sut.store().try_insert(id_of(*i), K { v: *k, fail: true }));
+                emit!(op, match r {
+                    Ok(()) => "ok".into(),
+                    Err(e) => err_str(&e),
+                });
+            }
             Op::SRemove(i) => {
                 let r = guard!(sut.store().remove::<K>(id_of(*i)));
                 emit!(op, match r {
-                    Ok(Some(K(k))) => format!("key {k}"),
+                    Ok(Some(K { v: k, .. })) => format!("key {k}"),
                     Ok(None) => "none".into(),
                     Err(e) => err_str(&e),
                 });
@@ -455,6 +509,13 @@ fn run_on<T: Sut>(sut: &mut T, ops: &[Op]) -> Out {
                         }
                         (Op::Insert(k), Entry::Vacant(v)) => {
                             let r = guard!(v.insert(K(*k)));
+                            emit!(op, match r {
+                                Ok(()) => "ok".into(),
+                                Err(e) => err_str(&e),
+                            });
+                        }
+                        (Op::InsertFail(k), Entry::Vacant(v)) => {
+                            let r = guard!(v.insert(K { v: *k, fail: true }));
                             emit!(op, match r {
                                 Ok(()) => "ok".into(),
                                 Err(e) => err_str(&e),
@@ -655,7 +716,8 @@ fn gen_script(rng: &mut Rng, big: bool) -> (Vec<Op>, bool) {
                 None => match rng.below(100) {
                     0..=37 => Op::Entry(i),
                     38..=54 => Op::SGet(i),
-                    55..=71 => Op::TryIns(i, gen_key(rng)),
+                    55..=67 => Op::TryIns(i, gen_key(rng)),
+                    68..=71 => Op::TryInsFail(i, gen_key(rng)),
                     72..=83 => Op::SRemove(i),
                     84..=90 => Op::Reopen,
                     91..=96 => Op::Dir,
@@ -673,7 +735,8 @@ fn gen_script(rng: &mut Rng, big: bool) -> (Vec<Op>, bool) {
                     _ => Op::Drop,
                 },
                 Some(false) => match rng.below(100) {
-                    0..=64 => Op::Insert(gen_key(rng)),
+                    0..=54 => Op::Insert(gen_key(rng)),
+                    55..=69 => Op::InsertFail(gen_key(rng)),
                     _ => Op::Drop,
                 },
             }
@@ -693,6 +756,7 @@ fn gen_script(rng: &mut Rng, big: bool) -> (Vec<Op>, bool) {
                 cur = None;
             }
             (Op::Drop, Some(_)) => cur = None,
+            (Op::InsertFail(_), Some(false)) => cur = None,
             (Op::TryIns(j, _), None) => present[*j] = true,
             (Op::SRemove(j), None) => present[*j] = false,
             (Op::Plant(j, _), None) => present[*j] = true,
@@ -727,6 +791,7 @@ fn enumerate(depth: usize, f: &mut dyn FnMut(&[Op])) {
                     let mut p = present;
                     p[i] = false;
                     step(Op::SRemove(i), None, 0, p, pre);
+                    step(Op::TryInsFail(i, k), None, 0, present, pre);
                 }
                 step(Op::Reopen, None, 0, present, pre);
             }
@@ -741,6 +806,7 @@ fn enumerate(depth: usize, f: &mut dyn FnMut(&[Op])) {
                 let mut p = present;
                 p[cur_id] = true;
                 step(Op::Insert(k), None, 0, p, pre);
+                step(Op::InsertFail(k), None, 0, present, pre);
                 step(Op::Drop, None, 0, present, pre);
             }
         }
